@@ -520,6 +520,32 @@ def run_c02(prop, tier):
                               {"engine": "E1 rt_driver", "bufsz": 97, "program": proto(prog), "short": sh, "oracle": "C02"},
                               {"kind": "equal-clocks" if sh == "-" else "short-write"})
         ctx.part("equal-clocks-and-short-writes", runs=len(alljobs))
+        # the metadata API among the events: attributes set and written out at any point (also as the last thing before the
+        # thread ends); whatever the order, the metadata left behind is complete and carries the last value set
+        from lib import catalog
+        req = "R:nosv:" + catalog.load_events()["nosv"]["version"]
+        mjobs = [list(t) for k in (1, 2, 3) for t in itertools.product(("as", "af", "e0", "f", req), repeat=k) if "as" in t or "af" in t]
+
+        def one_meta(prog):
+            cd = os.path.join(base, "m%d" % os.getpid())
+            rc, err, log = run_case(exe, cd, proto(prog))
+            msg = oracle(cd, log, rc, err)
+            if msg is None:
+                sets = [int(l.split()[1]) for l in log if l.startswith("A ")]
+                meta = json.load(open(os.path.join(stream_path(cd), "stream.json")))
+                got = meta.get("verif", {}).get("a")
+                if (sets and got != sets[-1]) or (not sets and got is not None):
+                    msg = "attribute verif.a is %r in the final metadata, last set to %r" % (got, sets[-1] if sets else None)
+            emsg = emu(cd) if msg is None else None
+            return msg, emsg
+        for prog, (msg, emsg) in zip(mjobs, pmap(one_meta, mjobs)):
+            ctx.add(evaluations=1, transitions=len(prog) + 2, traces_validated_against_impl=1)
+            if msg == "ABORTED":
+                msg = "the library aborted"
+            if msg is not None or emsg is not None:
+                ctx.violation("B=97 conformant program %s: %s" % (proto(prog), msg or emsg),
+                              {"engine": "E1 rt_driver", "bufsz": 97, "program": proto(prog), "short": "-", "oracle": "C02"}, {"kind": "metadata-api"})
+        ctx.part("metadata-api", runs=len(mjobs))
         # the trace directory is given relative to the working directory (the default "ovni" is) and the program changes its
         # working directory at some point of its life: still a conformant program
         cdjobs = []
